@@ -263,6 +263,9 @@ class TypeGen:
                 base = self.fresh("HB")
                 self.place("interface %s { k: %s; other: string }" % (base, inner), allow_after)
                 self.place("interface %s extends %s { own: number }" % (holder, base), allow_after)
+                if r.chance(0.4):
+                    # ... and the indexed object is composed (intersection / utility wrapper / parentheses)
+                    return r.pick(["(%s & { zz: 1 })['k']", "Required<%s>['k']", "(%s)['k']", "Pick<%s, 'k'>['k']"]) % holder
             else:
                 return "{ k: %s, other: string }['k']" % inner
             return "%s['k']" % holder
@@ -489,7 +492,8 @@ class ExprGen:
                 self.tg.place("interface %s extends %s { own: symbol }" % (n, b))
                 return n + idx
             self.tg.place(("interface %s { %s }" if form == 1 else "type %s = { %s };") % (n, members))
-            return n + idx
+            # the indexed object may itself be composed: intersection, utility wrapper, parentheses
+            return r.wpick([("%s", 5), ("(%s & { zz: 1 })", 1), ("Required<%s>", 1), ("Partial<%s>", 1), ("(%s)", 1), ("Omit<%s, 'zz'>", 1)]) % n + idx
         return "string"
 
 
